@@ -48,8 +48,12 @@ Record state := mkSt {
 
 Definition init_q : qstate := mkQ 0 None None.
 
-Definition init (ids : list qid) : state :=
-  mkSt [] [] None (map (fun i => (i, init_q)) ids).
+(* a node on which `metrics` is currently bound to the chunk set [t] ([] for a
+   node that has not served a query yet) *)
+Definition init_bound (t : chunkset) (ids : list qid) : state :=
+  mkSt t t None (map (fun i => (i, init_q)) ids).
+
+Definition init (ids : list qid) : state := init_bound [] ids.
 
 Fixpoint eqb_list (a b : list N) : bool :=
   match a, b with
